@@ -1,3 +1,4 @@
+import Firebolt.TransExpected
 import Firebolt.Properties.TransBase
 import Firebolt.Spec.Route
 import Firebolt.Generated.Source
@@ -212,15 +213,9 @@ open Firebolt.MiniGo Firebolt.TransBase
 /-- deliverMessageToNode: a node is asked once whether it accepts the type; it receives the message iff it does; a
 failing receipt is recorded; every child is visited regardless -/
 theorem translated_exDeliverToNode (σ : Env) :
-    obs Trans.exDeliverToNode σ =
-      ⟨[("node.NodeProcessor.AcceptsMessage", [σ "msg.MessageType"])] ++
-        (if σ "node.NodeProcessor.AcceptsMessage#0" ≠ 0 then
-          [("node.NodeProcessor.Receive", [σ "msg"])] ++
-            (if σ "node.NodeProcessor.Receive#0" ≠ 0 then [("errorList.addError", [σ "node.NodeProcessor.Receive#0"])] else [])
-         else []) ++
-        [("foreach node.Children: e.deliverMessageToNode", [σ "msg", σ "child", σ "errorList"])], none, false⟩ := by
+    obs Trans.exDeliverToNode σ = TransExpected.exDeliverToNode σ := by
   by_cases h1 : σ "node.NodeProcessor.AcceptsMessage#0" = 0 <;> by_cases h2 : σ "node.NodeProcessor.Receive#0" = 0 <;>
-  minigo_simp [Trans.exDeliverToNode, h1, h2]
+  minigo_simp [TransExpected.exDeliverToNode, Trans.exDeliverToNode, h1, h2]
 end Translated
 
 theorem closure_unchanged : GeneratedClo.C11 = ExpectedClo.C11 := by rfl
